@@ -1,7 +1,8 @@
 /* jc: job-control helper for C07 (pty sessions).
    usage: jc <exit-code> [tag]
-   Appends "pid=<pid>\tpgid=<pgid>\targv=jc,<code>,<tag>\n" to $VERIF_TRACE (same leading
-   fields as hp), then sleeps until told what to do:
+   Appends "pid=<pid>\tpgid=<pgid>\targv=jc,<code>,<tag>\ttpgid=<tcgetpgrp(2)>\n" to $VERIF_TRACE
+   (same leading fields as hp; tpgid = the terminal's foreground group as seen from inside the
+   job when it starts, -1 when fd 2 is no terminal), then sleeps until told what to do:
      SIGUSR1 -> exit with <exit-code>        SIGUSR2 -> stop itself (SIGSTOP)
    every other signal keeps its default action (SIGINT/SIGTERM end it, SIGTSTP stops it).
    Never reads or writes the terminal or its pipes. Gives up after 120 s. */
@@ -20,12 +21,13 @@ static void on2(int s) { (void)s; want_stop = 1; }
 
 int main(int argc, char **argv) {
   int code = argc > 1 ? atoi(argv[1]) : 0;
+  int tp = (int)tcgetpgrp(2);
   struct sigaction a; memset(&a, 0, sizeof a);
   a.sa_handler = on1; sigaction(SIGUSR1, &a, 0);
   a.sa_handler = on2; sigaction(SIGUSR2, &a, 0);
   char buf[512];
-  int n = snprintf(buf, sizeof buf, "pid=%d\tpgid=%d\targv=jc,%s,%s\n", (int)getpid(), (int)getpgrp(),
-                   argc > 1 ? argv[1] : "", argc > 2 ? argv[2] : "");
+  int n = snprintf(buf, sizeof buf, "pid=%d\tpgid=%d\targv=jc,%s,%s\ttpgid=%d\n", (int)getpid(), (int)getpgrp(),
+                   argc > 1 ? argv[1] : "", argc > 2 ? argv[2] : "", tp);
   const char *t = getenv("VERIF_TRACE");
   if (t) { int fd = open(t, O_WRONLY | O_APPEND | O_CREAT | O_CLOEXEC, 0644);
            if (fd >= 0) { ssize_t r = write(fd, buf, n); (void)r; close(fd); } }
